@@ -19,7 +19,7 @@
 (***************************************************************************)
 EXTENDS Integers, Sequences, FiniteSets, TLC, Json, TextOps
 
-CONSTANTS EffTokens, MaxEff, Modes, FnModes, MaxFns, Depth, InputOps, Flags, Entries, TracerStyles
+CONSTANTS EffTokens, MaxEff, Modes, FnModes, MaxFns, Depth, InputOps, Flags, Entries, TracerStyles, Threadeds
 
 VARIABLES file,       \* [top |-> prog, fns |-> Seq(prog)]   prog = [effs |-> Seq(token), mode |-> mode]
           pOut, pSleep, pMods,  \* process globals: "real" or "patched"
@@ -107,7 +107,9 @@ Exec(prog, kindOfEntry) ==
         stUsed == \E j \in 1..Len(EffsOf(prog)) : EffsOf(prog)[j] = "st"
         \* `with self.trace.as_filename(...)`: tracers that install a trace function put the old one back on
         \* exit, however the block is left; style "none" installs nothing and restores nothing
-        trace1 == IF file.tracer = "none" \/ "tracer_conditional_restore" \in Flags
+        \* (sys.settrace is per thread: with threaded = TRUE nothing the student does reaches the caller's thread)
+        trace1 == IF file.threaded THEN pTrace
+                  ELSE IF file.tracer = "none" \/ "tracer_conditional_restore" \in Flags
                   THEN (IF stUsed THEN "changed" ELSE pTrace) ELSE "orig"
     IN [ pTrace |-> trace1, pOut |-> IF unmocked THEN "real" ELSE "patched",
          pSleep |-> IF unmocked THEN "real" ELSE "patched",
@@ -161,7 +163,10 @@ ClearInput == /\ CanAct /\ Clean /\ "clear_input" \in InputOps /\ inputs' = <<>>
 SeqsUpTo(S, n) == UNION {[1..k -> S] : k \in 0..n}
 TopProgs == [effs : SeqsUpTo(EffTokens, MaxEff), mode : Modes]
 FnProgs == [effs : SeqsUpTo(EffTokens, MaxEff), mode : FnModes]
-Files == [top : TopProgs, fns : SeqsUpTo(FnProgs, MaxFns), tracer : TracerStyles]
+\* threaded = TRUE: executions go through the helper thread with a time limit (they all end by themselves here;
+\* time-limit violations are TimeoutRace.tla's); unbounded recursion is left to the unthreaded runs
+Files == {f \in [top : TopProgs, fns : SeqsUpTo(FnProgs, MaxFns), tracer : TracerStyles, threaded : Threadeds] :
+            f.threaded => (f.top.mode # "recursion" /\ \A i \in 1..Len(f.fns) : f.fns[i].mode # "recursion")}
 
 Init == /\ file \in Files
         /\ pOut = "real" /\ pSleep = "real" /\ pMods = "real" /\ pTrace = "orig" /\ patches = <<>> /\ stdouts = <<>>
